@@ -144,17 +144,13 @@ def detect(d):
 def main():
     d = os.path.abspath(sys.argv[1])
     out = {}
-    rf = d + "/result.json"
-    if os.path.exists(rf):
-        out = json.load(open(rf))
     if "--skip-confirm" not in sys.argv:
         out["confirm"] = confirm(d)
-        json.dump(out, open(rf, "w"), indent=1)
+        json.dump(out["confirm"], open(d + "/confirm.json", "w"), indent=1)
     if "--skip-detect" not in sys.argv:
         out["detect"] = detect(d)
-        json.dump(out, open(rf, "w"), indent=1)
-    # restore evidence for the unchanged tree is the caller's job
-    print(json.dumps({"confirm_ok": out.get("confirm", {}).get("ok"), "detected_by": out.get("detect", {}).get("detected_by")}))
+        json.dump(out["detect"], open(d + "/detect.json", "w"), indent=1)
+    print(json.dumps({"dir": d, "confirm_ok": out.get("confirm", {}).get("ok"), "detected_by": out.get("detect", {}).get("detected_by")}))
 
 
 if __name__ == "__main__":
